@@ -1420,9 +1420,11 @@ func (vw *valWorld) checkC09(o *Outcome) {
 
 func (vw *valWorld) equalsInitial(wr *valWrite) bool {
 	// a write of the value the characteristic already had (e.g. the constructor default) changes nothing
+	// (it may take effect before every write that had not returned when it was invoked, however
+	// much earlier that one was sent: a stalled request)
 	first := true
 	for _, o := range vw.writes {
-		if o.pos == wr.pos && o.inv < wr.inv {
+		if o != wr && o.pos == wr.pos && o.ret != 0 && o.ret < wr.inv {
 			first = false
 		}
 	}
